@@ -20,7 +20,8 @@ PROPS = {
         "exhaustive": True,
         "rule": "complete enumeration of the finite domain: all 64 sets, 64x64 set pairs (|,&,|=,&=), 64x6 set/kind "
                 "pairs in every operand order, 6x6 kind pairs, len/is_empty/iter/into_iter/rev/Display/disjunction/"
-                "conjunction of every set, every next/next_back script of length <=7 (quick) / <=10 (thorough) on every "
+                "conjunction of every set, every standard adaptor forward and backward, internal backward iteration (rfold, try_rfold, rev().fold ..), nth / nth_back / rev().nth / rev().skip "
+                "with every count up to two past the end followed by what is left, every next/next_back script of length <=7 (quick) / <=10 (thorough) on every "
                 "set, Value::kind/is_kind per variant. A case is non-trivial when an operand set is neither empty nor full; "
                 "distinct = distinct case lines",
         "trusted": ["KindSet values are built in the harness by `|=` of singletons into `KindSet::none()` and read back "
@@ -39,7 +40,11 @@ PARSE_RULE = (
     "(complete in thorough runs of C02, boundaries + seeded samples otherwise); E5 byte patterns (every 1- and 2-byte "
     "sequence, structured 3/4-byte sequences, truncations, BOM, syntax errors before/after ill-formed bytes); E6 the "
     "312 corpus files <= 8 KiB with every truncation and single-byte deletion/substitution; surrogate element "
-    "sequences of length <= 4; E7 grammar-based random documents with 1-3 random edits. "
+    "sequences of length <= 4 (<= 3 over every two-character escape and two different pairs); E7 grammar-based random "
+    "documents with 1-3 random edits; E8 wide objects; E9 aliasing characters; E10 four-character words after \\u; E11 "
+    "multi-byte characters at every buffer fill level; E12 ill-formed bytes inside look-ahead windows; E13 byte inputs with a "
+    "multi-byte character (whole / cut short) across byte 65536 in every alignment. Entry-point agreement (flag EP) includes "
+    "sources declaring UTF-16 byte lengths, 1, irregular lengths, 0, 2^8, 2^16, 2^32 and alternately 0 / 1 MiB per character. "
 )
 
 
@@ -65,9 +70,9 @@ PARSE_TRUST = [
 ]
 
 for pid, nt, rule_tail, shards in [
-    ("C01", c01_nontrivial, "Observable: accept/reject verdict of 13 entry-point calls (text) or 2 (bytes). Non-trivial: input of >= 2 characters.", {"quick": 16, "thorough": 16}),
-    ("C02", parse_nontrivial_accept, "Observable: the parsed value and, for every object in it, contains_key/index_of/redundant_index_of/indexes_of/get/get_entries/get_unique for every key occurring plus an absent key. Non-trivial: accepted documents.", {"quick": 16, "thorough": 16}),
-    ("C05", parse_nontrivial_accept, "Observable: the whole code map through parse_str and parse_slice, and traverse().count(). Non-trivial: accepted documents.", {"quick": 16, "thorough": 16}),
+    ("C01", c01_nontrivial, "Observable: accept/reject verdict of 13 entry-point calls (text) or 2 (bytes); the two parse_infallible verdicts stand for seven declared-length schemes (UTF-8, UTF-16 bytes, 0, 256, 512, 65536, 2^32). Non-trivial: input of >= 2 characters.", {"quick": 16, "thorough": 16}),
+    ("C02", parse_nontrivial_accept, "Also under the three lenient option records (surrogate sequences, lenient random documents). Observable: the parsed value and, for every object in it, contains_key/index_of/redundant_index_of/indexes_of/get/get_entries/get_unique for every key occurring plus an absent key. Non-trivial: accepted documents.", {"quick": 16, "thorough": 16}),
+    ("C05", parse_nontrivial_accept, "Also under the three lenient option records. Observable: the whole code map through parse_str and parse_slice, and traverse().count(). Non-trivial: accepted documents.", {"quick": 16, "thorough": 16}),
     ("C07", c07_nontrivial, "Observable: error variant, offsets, character, code units, Error::position and Error::span through parse_str and parse_slice. Non-trivial: an error past offset 0.", {"quick": 16, "thorough": 16}),
     ("C12", parse_nontrivial_accept, "Observable: value, code map or error under each of the four option records. Non-trivial: accepted documents.", {"quick": 16, "thorough": 16}),
 ]:
@@ -95,7 +100,9 @@ PRINT_RULE = (
     "custom option records, plus limits straddling the actual one-line width and item count (w-1,w,w+1 x n-1,n,n+1 x "
     "Width/Item/ItemOrWidth); every numeric field 0..3 (singly and in pairs) around each preset x 4 limit settings x 6 "
     "probe values; random value x random option record (indent Spaces 0..4 / Tabs 0..2, every Limit variant), every "
-    "fifth with a straddling limit. Non-trivial: the value contains a non-empty container. distinct = distinct case lines."
+    "fifth with a straddling limit; (C13) one spacing field at 255, 256, 257, 300, 511, 512, 65535..65537, and begin / end / after-comma / empty spacing of "
+    "2^32 .. 2^40 under limits that expand the container (output capped at 64 MiB); (C04) the text also re-read through parse_slice, one-string documents "
+    "with a multi-byte character across byte 65536. Non-trivial: the value contains a non-empty container. distinct = distinct case lines."
 )
 
 for pid, fam, tail in [
@@ -119,7 +126,8 @@ PROPS["C08"] = {
     "rule": "every Unicode scalar value as a one-character string and as a key (all 1,112,064 in thorough runs; all below "
             "U+0180, every class boundary +-2 and 6,000 seeded samples in quick runs), all small values of depth <= 2, "
             "and random nested values with strings from controls/quotes/backslashes/U+2028/non-BMP/noncharacters, all "
-            "number classes, duplicate and empty keys. Observable: compact_print, to_string, format!(\"{}\"), String::from; "
+            "number classes, duplicate and empty keys; every value also with its objects rebuilt through push_front, push_entry_front, "
+            "back pushes + one front push, extend and FromIterator (the text must not depend on the route). Observable: compact_print, to_string, format!(\"{}\"), String::from; "
             "spec column: the reference serializer ser_min. distinct = distinct case lines.",
     "trusted": ["fmt::Formatter / Display plumbing of std"],
     "assumptions": [],
@@ -136,6 +144,7 @@ PROPS["C15"] = {
             "(must be equal) and against a single mutation of it (one leaf, one key, or one entry replaced by a copy of "
             "another: same length, different multiset). Observable: a.unordered_eq(b), b.unordered_eq(a), as_unordered "
             "==, Unordered ==, reflexivity, plain ==; spec column: equality of recursively sorted normal forms. "
+            "Histories: grow (29..130 keys) / drain-by-position against the survivors pushed afresh; the second key universe with one side canonicalized or sorted. "
             "Non-trivial: a case containing a non-empty object. distinct = distinct case lines.",
     "trusted": ["lookups inside unordered_eq are modelled as linear scans (justified by C06's queries_scan for every reachable object)"],
     "assumptions": [],
@@ -158,6 +167,8 @@ PROPS["C06"] = {
             "remove_unique, remove_at at every position and past the end, sort, get_or_insert_with, get_mut, iter_mut, "
             "extend, clone, mem::take); long random histories (up to 60 pushes then up to 120/200 mixed operations over 40 "
             "keys: several growth/rehash cycles) with the state of every 7th prefix observed for a tenth of them; bulk "
+            "a second key universe of 11 names ordered differently by code points and UTF-16 units (sort / canon histories); extensions whose "
+            "source panics after k entries (the caller recovers: entries and index must agree); "
             "construction (from_vec, FromIterator) followed by sort / insert / insert_front+remove. Observable: every "
             "operation's result, then len/is_empty, entries, contains_key/index_of/redundant_index_of/indexes_of/get/"
             "get_entries/get_with_index/get_entries_with_index/get_unique/get_unique_entry for every key of the universe "
@@ -185,6 +196,8 @@ PROPS["C11"] = {
             "get_mapped_entries_with_index. Conversions: 9 Rust types (Vec/Option/BTreeMap/Box over bool, (), String leaves) "
             "on generated documents with each of 6 wrong-kind tokens planted at every leaf position and at the root; "
             "observable: ok or (offset, expected kind, found kind). Non-trivial: accepted documents with a container, or a "
+            "Lenient documents (strings and keys ending in unpaired escapes, with siblings after them) are walked under their option record; every document is "
+            "re-read from a source declaring UTF-16 byte lengths with spans resolved there (flag DL); get_fragment also at 2^32, 2^64-2, 2^64-1. "
             "conversion error. distinct = distinct case lines.",
     "trusted": ["keyed lookups go through an object rebuilt by FromIterator in the model (C06: any reachable object answers as a scan)",
                 "the model computes mapped iterators eagerly; the implementation's are lazy (differs only on ill-shaped code maps, which the theorems exclude)"],
@@ -204,6 +217,8 @@ PROPS["C14"] = {
             "Observable per pair: ==, cmp, partial_cmp, <, <=, >, >=, !=, equality of SipHash (DefaultHasher), equality of the "
             "recorded write streams; for every first operand the exact write stream the derived Hash makes (compared with "
             "the model's hash_stream); for histories also both entry lists and whether the bucket dumps differ. "
+            "Near copies also respell a number (case of the exponent marker, sign / zero in the exponent, .0, e0) or flip the case of one letter; when both "
+            "operands are objects (arrays) the operators are also applied to the Objects, their entry vectors and the Vec<Value>s themselves. "
             "Non-trivial: a pair of unequal values, or a history pair. distinct = distinct case lines.",
     "trusted": ["std's derive(PartialEq, Eq, PartialOrd, Ord, Hash) expansion; SipHash collisions are not expected on the explored pairs "
                 "(hash equality is only demanded for equal values; for unequal values the model predicts unequal hashes, a "
@@ -234,6 +249,8 @@ PROPS["C03"] = {
             "most n+4 times, never after an Err item, and that a stream error planted in the middle stops all pulling; "
             "traverse().count() equals the code map length. Deep nesting: arrays, objects, mixed, wide-and-deep, closed and "
             "unclosed, and closed-then-error shapes at depths 1, 2, 64, 500, 10^3, 10^5, 10^6 (thorough adds 10^4, 2*10^6) "
+            "runs of 1 .. 10^5 (thorough 10^6) unpaired high / lone low / paired surrogate escapes in one string or key under every option record; "
+            "the outcome class also through sources declaring length 0 and 2^32 per character and through SmallString<[u8; N]>, N = 0, 1, 3, 32, 256; "
             "parsed and traversed in a child process inside a thread with a 64 KiB stack, both entry points, strict and "
             "flexible options. Non-trivial: inputs of more than 2 characters. distinct = distinct case lines.",
     "trusted": PARSE_TRUST + ["machine stack consumption and compiler-generated drop glue are runtime behaviour: observed by "
@@ -360,7 +377,9 @@ PROPS["C17"] = {
             "`txt` serde_json::from_str::<Value>(compact text of v).  Values: ~430 fixed number spellings bare and inside "
             "containers (every lexical class at, just inside and just beyond the i64/u64 bounds, 2^53, negative-zero spellings, "
             "fractions of 1-40 digits, exponent forms e/E/+/-/leading zero, 17-40 significant digits, the double range ends, "
-            "subnormal and half-subnormal boundaries, 309-digit integers around f64::MAX, absurd exponents); seeded spellings from "
+            "subnormal and half-subnormal boundaries, 309-digit integers around f64::MAX, absurd exponents, doubles a binary32 holds exactly "
+            "written in full, plain decimals with 0..48 zeros after the point, mantissas of 767..1100 bytes with a compensating exponent); "
+            "arrays of 4095..15000 elements and objects of 4094..5000 entries without / with repeated names; seeded spellings from "
             "12 classes (integers of 1-25 digits, neighbours of the 64-bit bounds, fractions, exponent shapes with exponents to "
             "+-500, shortest spellings of random doubles in three notations, m<2^53 x 10^+-22, >19 digits, "
             "the C09 decimal classes incl. exact midpoints); strings/keys from controls, quotes, backslashes, U+2028, U+D7FF, "
@@ -569,14 +588,14 @@ _m("C01", "Proved for EVERY character sequence and EVERY byte string: the parser
           "the recursive-descent reference), and accepts a byte string iff it is the UTF-8 encoding of such a text (the byte decoder "
           "accepts exactly well-formed UTF-8: no overlong form, no surrogate, nothing above U+10FFFF); a BOM is rejected; white space is "
           "exactly the four characters; all text entry points are one function and the byte entry point agrees with them on "
-          "well-formed bytes. Correspondence compares the verdict of 13 real entry-point calls with the model on the shared parse suite.",
+          "well-formed bytes. Correspondence compares the verdict of 13 real entry-point calls with the model on the shared parse suite. The verdict is also proved independent of the lengths the characters of a source declare (two error-free sources with the same characters are accepted together, any option record: C01_verdict_independent_of_declared_lengths).",
    "No axioms.",
    "Coq proof (machine = recursive descent <-> annotated grammar; UTF-8 decoder <-> RFC 3629 spec) + correspondence on verdicts of every entry point")
 _m("C02", "Proved for every text and option record: a successful parse returns exactly the value (and code map) the annotated grammar "
           "says the text denotes, and that denotation is unique; for ALL instances: every non-surrogate \\uXXXX, every high x low pair "
           "(combined into one scalar), every raw scalar, the eight two-character escapes, every number (verbatim), the literals; "
           "lookups on an object built from any entry list are linear scans in source order. Correspondence compares the full value and "
-          "every lookup on every key.",
+          "every lookup on every key. The value is proved independent of the lengths the characters declare (same characters, same value, code map of the same length: C02_value_independent_of_declared_lengths).",
    "No axioms.",
    "Coq proof (soundness + completeness + functionality of the denotation; corollaries per clause) + correspondence on values and lookups")
 _m("C05", "Proved for every error-free stream under every option record: the returned code map has one entry per fragment in pre-order, "
@@ -633,7 +652,9 @@ PROPS["C10"] = {
             "to hold exactly the ascending positions of each key; each document against a rewriting of it (members shuffled at "
             "every depth, every number exactly respelt: exponent shifting, trailing zeros, E/e/+, leading zero in the exponent); "
             "every permutation of 2-4/2-5 members with nested reordered objects and respelt numbers; number pairs d / exact "
-            "respelling of d over the eight decimal classes of C09. Observable: the canonical value itself (compared with the "
+            "respelling of d over the eight decimal classes of C09; beyond I-JSON: repeated member names whose values change order once "
+            "canonical (0.2e2 / 100 / 20 ..), are proper beginnings of each other ({} / {a:1} / {a:1,b:2}), sit under 1 .. 140 levels of "
+            "wrappers, or occur in objects of 31 .. 90 members, each against respelled and shuffled copies. Observable: the canonical value itself (compared with the "
             "model's), the flags, and equality of the two canonical texts. Non-trivial: documents with an object, and all pairs. "
             "distinct = distinct case lines.",
     "trusted": CANON_TRUST,
@@ -972,7 +993,7 @@ _m("C19", "Proved for EVERY document of the domain (arrays and objects nested to
           "(sampled, since the quantifier is over programs). The rule set itself is tied to the source statically: a translator "
           "regenerates the 41 rules of src/macros.rs as Coq data on every run, C19_rules_from_source proves them equal to the reference "
           "rules, and the model's dispatcher is proved to be a generic first-match interpreter of that data (C19_rules_semantics, "
-          "C19_expand_by_source_rules, C19_source_rules_expand).",
+          "C19_expand_by_source_rules, C19_source_rules_expand). The rule sets of the helper macros json_vec!, json_unexpected!, json_expect_expr_comma! are read off the source too and proved equal to the ones the model assumes (C19_helpers_from_source).",
    "A float literal passes through its float type: its JSON text is the spelling the float printer gives to the float it "
    "denotes; that function (literal -> spelling; rustc's rounding + lexical) is a universally quantified dependency in the "
    "theorems with an executable reference in the run. "
